@@ -64,7 +64,7 @@ BUILT = {
          "Every input of the E1 token trees and E2 skeleton/edit neighbourhoods goes through every text-accepting entry point of both crates; every byte string of length <= 2 and boundary-class strings to length 9 are the argument of 15 getter/setter functions on three receivers; every (language, script, region) of the CLDR universe goes through maximize, minimize and character_direction; a fixed list of large inputs runs under the 5 s watchdog; every call of the E3 harnesses is guarded. A panic, hang, abort or stack overflow is a violation attributed to the case. Concurrent callers: the same schedule enumeration over the parse / maximize / minimize / direction families in 'total' mode (a panic, deadlock or livelock under some schedule is a violation; values are not compared).",
          "Hang = one case current for more than 5 s. Inputs longer than the depth bound and more than k edits from every skeleton are outside.",
          "DESIGN.md §4 C01"),
- "C04": ("E1/E2 parse route + E4 from_parts product + E3 mutation histories",
+ "C04": ("E1/E2 parse route + E4 from_parts product + E3 mutation histories + E6 schedule exploration of concurrent readers of one value",
          "bounded-exhaustive enumeration of values along three routes (accepted inputs, from_parts product, all reachable states of five mutation harnesses); to_string compared with an independent canonicaliser and re-recognised by an independent strict recogniser",
          "On every accepted input of the input spaces, every element of the from_parts product (24 ids x 781 variant lists x 480 extension shapes) and every state reachable in the E3 harnesses, to_string() must be the model's canonical string, must be accepted by the strict recogniser as its own canonical form, canonicalize must return it and never lengthen the input.",
          "Trusted: reference canonicaliser/recogniser (DESIGN §3). Values outside the harness menus and input bounds are not explored.",
@@ -79,7 +79,7 @@ BUILT = {
          "Five harnesses (language-id fields, -u-, -t-, -x-, and a cross harness with conversions and whole-field assignment) are explored to exhaustion from default() and from parser-built values; de-duplication on full equality of (implementation value, model value); after every call the result and the no-change-on-Err rule, in every state all getters, is_empty, has_*, to_string and a re-parse are compared with the model. The unique-state count is cross-checked against stateright's BFS over the same transition function. Argument validation and normalisation is additionally checked byte-exhaustively (every string of length <= 2, boundary-class strings to length 9) for 15 functions.",
          "Trusted: the set/map reference model (DESIGN §3.2). Lists longer than the menus and more private tags than the cap are outside the bound.",
          "DESIGN.md §4 C10"),
- "C12": ("E3 route-independence table + E4 complete pair/triple enumeration over a value set collected from three routes",
+ "C12": ("E3 route-independence table + E4 complete pair/triple enumeration over a value set collected from three routes + E6 schedule exploration of concurrent readers of one value",
          "explicit-state exploration for route independence (one model value <-> one representation), then complete enumeration of ordered pairs and triples of a stratified value set for ==/hash/cmp/&str laws",
          "All states of the E3 harnesses, accepted inputs of the token tree to depth 3 and a stride of the from_parts product form the value set R. Reaching one model value with two different representations (within a search or across routes) is a violation. On all ordered pairs of a stratified subset: == iff equal to_string, equal => equal hash and Ordering::Equal, antisymmetry, id order = (language, script, region, variants) with absent first, == &str iff canonical text; transitivity on all ordered triples of a 200-value subset; subtag == &str against all subtag texts of R.",
          "Fixed hasher: DefaultHasher::new(). ExtensionsMap::other left empty.",
@@ -154,7 +154,7 @@ def main():
         "notes": "All checks: ./check <ID> <quick|thorough>; exit 0 held / 1 violation / 2 build failure / 3 engine failure. See DESIGN.md.",
     }
     for e in m["engines"]:
-        e["serves_properties"] = ["C01", "C03", "C06", "C07", "C08", "C10", "C14"] if e["name"] == "E6" else [c["property_id"] for c in checks]
+        e["serves_properties"] = ["C01", "C03", "C04", "C06", "C07", "C08", "C10", "C12", "C14"] if e["name"] == "E6" else [c["property_id"] for c in checks]
     json.dump(m, open('/verif/MANIFEST.json', 'w'), indent=1)
     try:
         import jsonschema
